@@ -350,6 +350,15 @@ def poison_heap(nbytes, k=12):
     del blocks
 
 
+def _attempt(fn):
+    try:
+        return "ok", fn()
+    except (Violation, Reject, HarnessError):
+        raise
+    except Exception as e:  # noqa - compared between the serial and the parallel form
+        return "raise", e
+
+
 def nbad(a, b):
     a = np.asarray(a)
     b = np.asarray(b)
@@ -541,6 +550,7 @@ class K:
         self.tol = tol
         self.exact_ref = exact_ref
         self.mag = mag
+        self.may_reject = False  # input outside the documented domain: only "same accept/reject" is demanded
 
 
 def k_complex_array(case, rng):
@@ -648,7 +658,8 @@ def k_csr_matvec(case, rng):
     dtx = ALL4[case["dt2"] % 4]
     A = _csr(rng, n, dta, case["variant"])
     col = case["variant"] % 3 == 1
-    x = _arr(rng, (n, 1) if col else (n,), dtx)
+    block = case["variant"] % 11 == 5  # (n, 2): not a vector - the threaded and the serial form must refuse alike
+    x = _arr(rng, (n, 2) if block else (n, 1) if col else (n,), dtx)
     if case["variant"] % 7 == 3:
         x = C().qarray(x)
     odt = _common(dta, dtx)
@@ -662,14 +673,16 @@ def k_csr_matvec(case, rng):
             raise Violation("input-modified", entry="par_dot_csr_matvec")
         # row sums of data * x[col], by numpy (independent of scipy's and quimb's matvec)
         rows = np.repeat(np.arange(n), np.diff(A.indptr))
-        xv = np.asarray(x, dtype=np.complex128).reshape(n)
-        y = np.zeros(n, dtype=np.complex128)
-        np.add.at(y, rows, A.data.astype(np.complex128) * xv[A.indices])
+        xv = np.asarray(x, dtype=np.complex128).reshape(n, -1)
+        y = np.zeros(xv.shape, dtype=np.complex128)
+        np.add.at(y, rows, A.data.astype(np.complex128)[:, None] * xv[A.indices])
         return y.reshape(x.shape)
 
     mag = float(np.linalg.norm(A.data)) * float(np.linalg.norm(x)) if A.nnz else float(np.linalg.norm(x))
-    return K("par_dot_csr_matvec", n, n, call, ref, [x], n * odt.itemsize, (EXACT32 if _single(dta, dtx) else EXACT64) * 10,
-             mag=mag)
+    k = K("par_dot_csr_matvec", n, n, call, ref, [x], n * odt.itemsize, (EXACT32 if _single(dta, dtx) else EXACT64) * 10,
+          mag=mag)
+    k.may_reject = block
+    return k
 
 
 def k_ldmul(case, rng):
@@ -815,11 +828,22 @@ def run_kernel(case):
     saved = [np.array(x, copy=True) for x in k.inputs]
     preflight(k.entry, k.rows, eff_tbs, eff_threads)
     poison_heap(k.res_nbytes)
-    with Sched(case["mode"], case["oseed"]) as sc:
-        got = k.call(kw)
+    serial_kw = {"num_threads": 1, "target_block_size": max(k.size_total, 1)}
+    if k.may_reject:
+        with Sched(case["mode"], case["oseed"]) as sc:
+            t_stat, got = _attempt(lambda: k.call(kw))
+        s_stat, serial = _attempt(lambda: k.call(serial_kw))
+        if t_stat != s_stat or (t_stat == "raise" and type(got) is not type(serial)):
+            raise Violation("accept-mismatch", entry=k.entry, threaded=[t_stat, type(got).__name__],
+                            serial=[s_stat, type(serial).__name__])
+        if t_stat == "raise":
+            raise Reject("both forms reject: %s" % type(got).__name__)
+    else:
+        with Sched(case["mode"], case["oseed"]) as sc:
+            got = k.call(kw)
     raise_worker_errors(sc, k.entry, N=k.rows, tbs=eff_tbs, threads=eff_threads)
     # the single-threaded form: same public function, one thread, no pool
-    serial = k.call({"num_threads": 1, "target_block_size": max(k.size_total, 1)})
+    serial = k.call(serial_kw)
     for x, s in zip(k.inputs, saved):
         if nbad(np.asarray(x), s) != 0:
             raise Violation("input-modified", entry=k.entry)
@@ -1110,6 +1134,7 @@ def s_builder(draw, tier, what):
             "oseed": draw(st.one_of(st.sampled_from([0, 1]), st.integers(2, 10**6)))}
     if what == "stripes":
         case["world"] = draw(st.one_of(st.integers(1, 20), st.sampled_from([2, 3, 5, 16, 64, 65])))
+        case["xcols"] = draw(st.sampled_from([0, 0, 1, 3]))  # 0: 1-D vector, k: (D, k) block
     else:
         case["parallel"] = draw(st.sampled_from([2, 3, 5, 16, 2, 3, 33, True]))
     if what == "coo":
@@ -1118,6 +1143,21 @@ def s_builder(draw, tier, what):
         case["route"] = draw(st.sampled_from(["matvec", "matvec", "linop"]))
         case["out"] = draw(st.sampled_from(["none", "none", "zeros", "poison"]))
         case["xcomplex"] = draw(st.booleans())
+        # shape / layout / precision of the vector: 1-D, quimb ket (d, 1) as ndarray and as qarray, (d, k) block in
+        # C / Fortran / transposed layout, strided 1-D view
+        # (every dtype x layout x ndim is a separate numba compilation of the whole lazy matvec; the rarer layouts and
+        # single precision live in their own sub-check, builder_matvec_layouts, so that they compile in parallel)
+        case["xshape"] = draw(st.sampled_from(["vec", "vec", "ket", "ket_qarray", "block"]))
+        case["k"] = draw(st.integers(2, 4))
+        case["single"] = False
+    if what == "matvec_layouts":
+        case["route"] = "matvec"
+        case["out"] = draw(st.sampled_from(["none", "zeros", "poison"]))
+        case["xcomplex"] = draw(st.booleans())
+        case["k"] = draw(st.integers(2, 4))
+        case["single"] = draw(st.booleans())
+        # single precision: 1-D and ket; double precision: transposed (Fortran ordered) block and strided 1-D view
+        case["xshape"] = draw(st.sampled_from(["vec", "vec", "ket"] if case["single"] else ["tblock", "strided", "strided"]))
     return case
 
 
@@ -1211,19 +1251,44 @@ def run_builder_stripes(case):
         raise Violation("stripes-differ", what="coo", world=w, D=int(D), serial_nnz=int(len(d0)), union_nnz=int(len(cat[0])))
     rng = np.random.default_rng(case["seed"])
     cdt = np.dtype(dtype)
-    x = _arr(rng, (D,), cdt)
-    y0 = np.zeros(D, dtype=cdt)
+    xs = (D,) if not case.get("xcols") else (D, int(case["xcols"]))
+    x = _arr(rng, xs, cdt)
+    y0 = np.zeros(xs, dtype=cdt)
     configcore.matvec_numba(x, y0, coupling_map=cm, sector=sec, symmetry=sym)
-    acc = np.zeros(D, dtype=cdt)
+    acc = np.zeros(xs, dtype=cdt)
     for r in order:
-        yr = np.zeros(D, dtype=cdt)
+        yr = np.zeros(xs, dtype=cdt)
         configcore.matvec_numba(x, yr, coupling_map=cm, sector=sec, symmetry=sym, world_rank=r, world_size=w)
         acc += yr
     err = rel_err(acc, y0, floor=float(np.linalg.norm(d0)) * float(np.linalg.norm(x)))
     if not err <= EXACT64:
         raise Violation("stripes-differ", what="matvec", world=w, D=int(D), err=err)
     return {"nt": w >= 2 and (D < 2 * w or D % w != 0), "err": err,
-            "cls": ["sym=" + case["sym"], "world=" + _tbucket(w), "D<world" if D < w else "D>=world", "D=%d" % min(int(D), 64)]}
+            "cls": ["sym=" + case["sym"], "world=" + _tbucket(w), "D<world" if D < w else "D>=world", "D=%d" % min(int(D), 64),
+                    "x.ndim=%d" % len(xs)]}
+
+
+def _make_x(case, rng, D, dt):
+    """The vector / ket / block the operator is applied to.  The leading extent is
+    always D (anything else is outside the domain: the numba kernels index rows
+    without bounds checks)."""
+    xs = case.get("xshape", "vec")
+    k = int(case.get("k", 2))
+    if xs == "vec":
+        return _arr(rng, (D,), dt)
+    if xs == "ket":
+        return _arr(rng, (D, 1), dt)
+    if xs == "ket_qarray":
+        return C().qarray(_arr(rng, (D, 1), dt))
+    if xs == "block":
+        return _arr(rng, (D, k), dt)
+    if xs == "fblock":
+        return np.asfortranarray(_arr(rng, (D, k), dt))
+    if xs == "tblock":
+        return _arr(rng, (k, D), dt).T
+    if xs == "strided":
+        return _arr(rng, (2 * D,), dt)[::2]
+    raise AssertionError(xs)
 
 
 def run_builder_matvec(case):
@@ -1234,50 +1299,64 @@ def run_builder_matvec(case):
     d0, r0, c0, D = sob.build_coo_data()
     A = sp.coo_matrix((d0, (r0, c0)), shape=(D, D)).toarray()
     rng = np.random.default_rng(case["seed"])
-    # domain: a complex operator needs a complex vector; the LinearOperator is built with the operator's own dtype
-    # and is only applied to vectors of that dtype
-    cplx = sob.iscomplex or (case["xcomplex"] and case["route"] == "matvec")
-    xdt = np.dtype("complex128" if cplx else "float64")
-    x = _arr(rng, (D,), xdt)
-    x0 = x.copy()
-    ref = A @ x
-    floor = float(np.linalg.norm(d0)) * float(np.linalg.norm(x))
     route, outk = case["route"], case["out"]
+    xshape = case.get("xshape", "vec")
+    # domain: a complex operator needs a complex vector; the LinearOperator is built with the operator's own dtype
+    # and is only applied to double precision vectors of that dtype
+    cplx = sob.iscomplex or (case["xcomplex"] and route == "matvec")
+    single = bool(case.get("single")) and route == "matvec"
+    xdt = np.dtype(("complex64" if single else "complex128") if cplx else ("float32" if single else "float64"))
+    if route == "linop" and xshape == "ket_qarray":
+        xshape = "ket"
+        case = dict(case, xshape="ket")
+    x = _make_x(case, rng, D, xdt)
+    x0 = np.array(x, copy=True)
+    ref = (A @ np.asarray(x, dtype=np.complex128).reshape(D, -1)).reshape(x.shape)
+    floor = float(np.linalg.norm(d0)) * float(np.linalg.norm(x))
+    tol = EXACT32 if single else EXACT64
 
     def buf():
         if outk == "none":
             return None
-        return np.zeros(D, dtype=xdt) if outk == "zeros" else np.full(D, 7.25, dtype=xdt)
+        return np.zeros(x.shape, dtype=xdt) if outk == "zeros" else np.full(x.shape, 7.25, dtype=xdt)
 
-    bp = buf()
-    with Sched(case["mode"], case["oseed"]) as sc:
-        if route == "matvec":
-            got = sob.matvec(x, out=bp, parallel=p)
-        else:
-            got = sob.aslinearoperator(parallel=p) @ x
-    raise_worker_errors(sc, "matvec", route=route)
-    got = np.asarray(got)
-    if route == "matvec" and bp is not None and (bp.shape != got.shape or nbad(bp, got)):
-        raise Violation("out-not-filled", parallel=p, out=outk)  # documented: "an array to store the result in"
-    if got.shape != ref.shape:
-        raise Violation("result-shape", entry="matvec", got=list(got.shape), want=list(ref.shape))
-    err = rel_err(got, ref, floor=floor)
-    if not err <= EXACT64:
-        raise Violation("matvec-differs", vs="dense", parallel=p, out=outk, route=route, err=err)
     # the single-threaded form of the very same call
     bs = buf()
-    ser = np.asarray(sob.matvec(x, out=bs) if route == "matvec" else sob.aslinearoperator() @ x)
+    s_stat, ser = _attempt(lambda: sob.matvec(x, out=bs) if route == "matvec" else sob.aslinearoperator() @ x)
+    bp = buf()
+    with Sched(case["mode"], case["oseed"]) as sc:
+        p_stat, got = _attempt(lambda: sob.matvec(x, out=bp, parallel=p) if route == "matvec"
+                               else sob.aslinearoperator(parallel=p) @ x)
+    info = dict(route=route, xshape=xshape, x_ndim=int(np.ndim(x)), parallel=p)
+    # same accept / reject behaviour
+    if s_stat == "ok" and p_stat == "raise":
+        raise Violation("parallel-rejects", exc=type(got).__name__, msg=str(got).strip().splitlines()[0][:100], **info)
+    if s_stat == "raise" and p_stat == "ok":
+        raise Violation("serial-rejects", exc=type(ser).__name__, msg=str(ser).strip().splitlines()[0][:100], **info)
+    if s_stat == "raise":
+        raise Reject("both forms reject: %s" % type(ser).__name__)
+    raise_worker_errors(sc, "matvec", route=route)
+    if type(got) is not type(ser):
+        raise Violation("result-type", entry="matvec", got=type(got).__name__, want=type(ser).__name__, **info)
+    got, ser = np.asarray(got), np.asarray(ser)
+    if route == "matvec" and bp is not None and (bp.shape != got.shape or nbad(bp, got)):
+        raise Violation("out-not-filled", out=outk, **info)  # documented: "an array to store the result in"
+    if got.shape != ref.shape or got.shape != ser.shape or got.dtype != ser.dtype:
+        raise Violation("result-shape", entry="matvec", got=[list(got.shape), str(got.dtype)],
+                        want=[list(ser.shape), str(ser.dtype)], **info)
+    err = rel_err(got, ref, floor=floor)
+    if not err <= tol:
+        raise Violation("matvec-differs", vs="dense", out=outk, err=err, **info)
     e2 = rel_err(got, ser, floor=floor)
-    if not e2 <= EXACT64:
-        raise Violation("matvec-differs", vs="serial-form", parallel=p, out=outk, route=route, err=e2,
-                        serial_accumulated_into_out=bool(outk == "poison" and rel_err(ser - 7.25, ref, floor=floor) <= EXACT64))
-    if nbad(x, x0):
+    if not e2 <= tol:
+        raise Violation("matvec-differs", vs="serial-form", out=outk, err=e2, **info)
+    if nbad(np.asarray(x), x0):
         raise Violation("input-modified", entry="matvec")
     w = _par_threads(p)
-    return {"nt": sc.threaded and w >= 2 and (D < 2 * w or D % w != 0), "err": max(err, e2),
+    return {"nt": sc.threaded and w >= 2 and (D < 2 * w or D % w != 0), "err": max(err, e2) * (EXACT64 / tol),
             "cls": ["route=" + route, "out=" + outk, "sym=" + case["sym"], "parallel=" + str(p), "mode=" + case["mode"],
                     "threaded" if sc.threaded else "serial-path", "D<world" if D < w else "D>=world",
-                    "x=" + xdt.name]}
+                    "x=" + xdt.name, "xshape=" + xshape]}
 
 
 # ---------------------------------------------------------------------------
@@ -1453,8 +1532,14 @@ SUBCHECKS = [
                   "> D: union of stripes == serial, stripe r holds only configurations = r mod world, striped matvecs sum "
                   "to the serial one; nt: world >= 2 and (D < 2*world or ragged)"),
     SubCheck("builder_matvec", run_builder_matvec, lambda tier: s_builder(tier, "matvec"), examples=(200, 2500), shards=(1, 4),
-             rule="SparseOperatorBuilder.matvec / aslinearoperator with parallel in {2,3,5,16,33,True}, out in {None, zeros, "
-                  "pre-filled}: equals dense(serial build) @ x and the same call with parallel=False; nt as builder_coo"),
+             rule="SparseOperatorBuilder.matvec / aslinearoperator with parallel in {2,3,5,16,33,True}, x a 1-D vector, a (d, 1) "
+                  "ket (ndarray / qarray) or a (d, k) block, out in {None, zeros, pre-filled}: same accept/reject as the "
+                  "serial call, equals dense(serial build) @ x and the same call with parallel=False (value, shape, "
+                  "dtype, type); nt as builder_coo"),
+    SubCheck("builder_matvec_layouts", run_builder_matvec, lambda tier: s_builder(tier, "matvec_layouts"), examples=(80, 1500),
+             shards=(1, 4),
+             rule="as builder_matvec for float32 / complex64 vectors and kets, transposed (Fortran ordered) (d, k) blocks and "
+                  "strided 1-D views, out in {None, zeros, pre-filled}; nt as builder_coo"),
     SubCheck("randn", run_randn, s_randn, examples=(300, 3000), shards=(1, 4),
              rule="randn(shape, dtype, num_threads, seed, dist, scale, loc), d = 0..40 (and around 32768), threads 1..33: "
                   "identical under every schedule, all elements written, slice i == stream of spawned generator i; nt: "
